@@ -22,6 +22,7 @@ bool operator==(const {{ type_def.cpp.name }}& lhs, const {{ type_def.cpp.name }
     /*>- for field in type_def.fields */
 {{ " " * 11 if not loop.first else " " }}lhs.{{ field.cpp.name }} == rhs.{{ field.cpp.name ~ (";" if loop.last else " &&") }}
     /*> endfor */
+    //? not type_def.fields : "true;"
 }
 bool operator!=(const {{ type_def.cpp.name }}& lhs, const {{ type_def.cpp.name }}& rhs) {
     return !(lhs == rhs);
